@@ -9,6 +9,7 @@ import (
 	vast "verif/ast"
 	"verif/gen"
 	"verif/mut"
+	"verif/ref/rtypes"
 	"verif/ref/typing"
 	"verif/sup"
 )
@@ -258,6 +259,11 @@ func checkC09() int {
 	}
 	for _, t := range soupTexts(c, c.pick(1500, 40000)) {
 		add("G3", t)
+	}
+	// users of deep chains of branching definitions (type equality must stay polynomial)
+	for _, n := range []int{12, 24, 40} {
+		defs := rtypes.DeepChains(n, 3, "")
+		add("chains", rtypes.DefsText(defs)+"let f(x : ChA0) : ChB0 = fwd self x\nlet g(x : ChB1) : ChA1 = fwd self x\n")
 	}
 	jobs := make([]sup.Job, len(texts))
 	for i, t := range texts {
